@@ -189,6 +189,12 @@ def impl_hashed(key, parts, form, cls=None):
         return [0]
     except IndexError:
         return [-3]     # never a legal outcome for a non-empty list: shows up as a difference
+    except Exception as e:      # noqa: BLE001 - any other exception out of partition() is an observable, not a crash of the check
+        return [-5] + [ord(c) for c in type(e).__name__[:24]]
+
+
+def exc_name(o):
+    return "".join(chr(c) for c in o[1:]) if o and o[0] == -5 else None
 
 
 def impl_utf8(cps):
@@ -292,7 +298,13 @@ def producer_history(rnd):
             cur[t] = sorted(gen_parts(rnd, allow_empty=False))
         key = gen_key(rnd)[:12] if kind == "hashed" else None
         calls.append((t, key, list(cur[t])))
-    return {"kind": kind, "random_start": random_start, "calls": calls}
+    # broker errors with retries left: the produce request of these calls is answered NotLeaderForPartition (6) /
+    # UnknownTopicOrPartition (3) once, the retry succeeds (producer.py:590-631 resets the topic's metadata)
+    errors = {}
+    for i in range(len(calls)):
+        if rnd.random() < 0.12:
+            errors[str(i)] = rnd.choice([6, 3])
+    return {"kind": kind, "random_start": random_start, "calls": calls, "errors": errors}
 
 
 class StandInClient(object):
@@ -313,11 +325,14 @@ class StandInClient(object):
     def reset_topic_metadata(self, *topics):
         pass
 
+    fail_next = 0       # errno answered ONCE for the next produce request (6 NotLeaderForPartition, 3 UnknownTopicOrPartition)
+
     def send_produce_request(self, payloads, **kw):
         from twisted.internet import defer
         from afkak.common import ProduceResponse
         self.sent.append([(p.topic, p.partition) for p in payloads])
-        return defer.succeed([ProduceResponse(p.topic, p.partition, 0, 0) for p in payloads])
+        err, self.fail_next = self.fail_next, 0
+        return defer.succeed([ProduceResponse(p.topic, p.partition, err, 0 if not err else -1) for p in payloads])
 
 
 def impl_producer(hist, draws):
@@ -333,12 +348,15 @@ def impl_producer(hist, draws):
         P.RoundRobinPartitioner.set_random_start(hist["random_start"])
         cls = P.RoundRobinPartitioner if hist["kind"] == "rr" else P.HashedPartitioner
         prod = Producer(client, partitioner_class=cls)
-        for t, key, parts in hist["calls"]:
+        for ci, (t, key, parts) in enumerate(hist["calls"]):
             topic = "topic%d" % t
             client.topic_partitions[topic] = list(parts)
             n0, s0 = len(drawn), len(client.sent)
+            client.fail_next = int(hist.get("errors", {}).get(str(ci), 0))
             prod.send_messages(topic, key=(bytes(key) if key is not None else None), msgs=[b"m"])
             chosen = client.sent[s0][0][1] if len(client.sent) > s0 else -1
+            client.fail_next = 0
+            client.reactor.advance(120.0)           # the retry (callLater(retry_interval)) goes out and succeeds
             rec = per_topic.setdefault(t, [hist["kind"], hist["random_start"], None, 0, [], [], [], []])
             if rec[2] is None:                      # first call for the topic constructs the partitioner
                 rec[2] = list(parts)
@@ -394,7 +412,7 @@ def client_history(rnd):
             n = len(topics[t]) if rnd.random() < 0.5 else rnd.choice([2, 3, 4, 6, 9])
             steps.append(("refresh", t, wire_order(n)))
         else:
-            steps.append(("send", t, gen_key(rnd)[:12] if kind == "hashed" else None))
+            steps.append(("send", t, gen_key(rnd)[:12] if kind == "hashed" else None, rnd.choice([6, 3]) if rnd.random() < 0.1 else 0))
     return {"kind": kind, "random_start": rnd.random() < 0.4, "topics": {str(t): v for t, v in topics.items()}, "steps": steps}
 
 
@@ -416,9 +434,12 @@ def impl_client(hist, draws):
         resp = metadata_response(request_id, [(1, "kafka1", 9092)], [("topic%d" % t, wire[t]) for t in sorted(wire)])
         return defer.succeed(resp)
 
+    fail = {"next": 0}
+
     def send_produce_request(payloads=None, **kw):
         sent.append([(p.topic, p.partition) for p in payloads])
-        return defer.succeed([ProduceResponse(p.topic, p.partition, 0, 0) for p in payloads])
+        err, fail["next"] = fail["next"], 0
+        return defer.succeed([ProduceResponse(p.topic, p.partition, err, 0 if not err else -1) for p in payloads])
     client._send_broker_unaware_request = unaware
     client.send_produce_request = send_produce_request
     old_r, old_flag = P.randint, P.RoundRobinPartitioner.randomStart
@@ -434,13 +455,19 @@ def impl_client(hist, draws):
                 client.load_metadata_for_topics("topic%d" % step[1])
                 seen_lists.append((step[1], list(client.topic_partitions.get("topic%d" % step[1], []))))
                 continue
-            _, t, key = step
+            t, key = step[1], step[2]
             topic = "topic%d" % t
             n0, s0 = len(drawn), len(sent)
+            fail["next"] = int(step[3]) if len(step) > 3 else 0
             prod.send_messages(topic, key=(bytes(key) if key is not None else None), msgs=[b"m"])
             chosen = sent[s0][0][1] if len(sent) > s0 else -1
-            parts = list(client.topic_partitions.get(topic, []))
-            seen_lists.append((t, parts))
+            fail["next"] = 0
+            client.reactor.advance(120.0)           # the retry goes out (the real client re-loads the reset metadata first)
+            if topic in client.topic_partitions:
+                parts = list(client.topic_partitions[topic])
+                seen_lists.append((t, parts))
+            else:       # an injected broker error made the producer reset the topic's metadata right after the selection
+                parts = sorted(wire[t])
             rec = per_topic.setdefault(t, [hist["kind"], hist["random_start"], None, 0, [], [], [], []])
             if rec[2] is None:
                 rec[2] = list(parts)
@@ -599,13 +626,19 @@ def run(ck):
         got = impl_murmur(k)[0]
         if java_murmur2(k) != h:
             raise vlib.CheckAbort("harness transcription java_murmur2 disagrees with the JVM vector for %r" % (k,))
-        ids = [hp.partition(bytes(k), list(range(n))) for n in n_list] if got == h & 0xFFFFFFFF else None
+        ids = None
+        if got == h & 0xFFFFFFFF:
+            try:
+                ids = [hp.partition(bytes(k), list(range(n))) for n in n_list]
+            except Exception as e:      # noqa: BLE001
+                ids = "partition() raised %s: %s" % (type(e).__name__, str(e)[:120])
         if got != h & 0xFFFFFFFF or ids != list(ps):
             nbad += 1
             ndiff[0] += 1
             if nbad <= 2:
                 kk = shrink_key(k, lambda x: impl_murmur(x)[0] != (java_murmur2(x) & 0xFFFFFFFF)) if got != h & 0xFFFFFFFF else k
-                ck.violation({"kind": "pure_murmur2 / HashedPartitioner differs from the real JVM (Kafka Utils.murmur2, toPositive % n)",
+                ck.violation({"kind": ("HashedPartitioner.partition() raises for a key the Java client partitions normally" if isinstance(ids, str)
+                                       else "pure_murmur2 / HashedPartitioner differs from the real JVM (Kafka Utils.murmur2, toPositive % n)"),
                               "key_bytes": kk, "impl": impl_murmur(kk)[0], "java": java_murmur2(kk) & 0xFFFFFFFF,
                               "partition_ids_impl": ids, "partition_ids_java": list(ps), "n_list": n_list, "replay_op": "murmur"})
     ck.cov["correspondence"]["real pure_murmur2 and HashedPartitioner ids on [0..n-1] vs JVM vectors"] = {
@@ -639,13 +672,18 @@ def run(ck):
 
     # --- 2. hashed partitioner on bytes / bytearray / text; the UTF-8 encoder itself
     cases, impl, meta = [], [], []
-    for _ in range(500 * scale):
-        parts = gen_parts(rnd)
-        if rnd.random() < 0.5:
+    fixed = [([], [0, 1, 2], "bytes"), ([], [0, 1, 2, 3, 4], "bytearray"), ([], [0, 1], "text"), ([0], [0, 1, 2], "bytes")]
+    for j in range(500 * scale + len(fixed)):
+        if j < len(fixed):
+            k, parts, form = fixed[j]               # the EMPTY key (Java hashes it like any other) in every form
+            cases.append([3 if form == "text" else 2] + lp(k) + lp(parts))
+        elif rnd.random() < 0.5:
+            parts = gen_parts(rnd)
             k = gen_key(rnd)
             form = rnd.choice(["bytes", "bytearray"])
             cases.append([2] + lp(k) + lp(parts))
         else:
+            parts = gen_parts(rnd)
             k = gen_text(rnd)
             form = "text"
             cases.append([3] + lp(k) + lp(parts))
@@ -665,6 +703,11 @@ def run(ck):
             ck.violation({"kind": "result outside partition list", "key": k, "form": form, "partitions": parts, "impl": o, "replay_op": "hashed"})
         if o == [-2]:
             ck.violation({"kind": "non-deterministic partition()", "key": k, "form": form, "partitions": parts, "replay_op": "hashed"})
+        if o and o[0] == -5:
+            ck.violation({"kind": "HashedPartitioner.partition() raised %s for a key the Java client partitions normally" % exc_name(o),
+                          "key": k, "form": form, "partitions": parts, "java_partition_if_list_is_0..n-1":
+                          (java_partition(k if form != "text" else list("".join(chr(c) for c in k).encode("utf-8", "replace")), len(parts)) if parts else None),
+                          "replay_op": "hashed"})
         if o == [-4]:
             ck.violation({"kind": "partition() modified the caller's partition list", "key": k, "form": form, "partitions": parts, "replay_op": "hashed"})
         if form == "text" and o[0] == 1:
@@ -716,6 +759,7 @@ def run(ck):
         draws = Draws(rnd)
         per_topic = impl_producer(hist, draws)
         ck.hist("producer_histories")
+        ck.hist("producer_calls_answered_NotLeader_or_UnknownTopic_then_retried", len(hist.get("errors", {})))
         for topic, (kind, random_start, init, start0, calls, starts, hkeys, outs) in sorted(per_topic.items()):
             rp = {"history": hist, "draws": list(draws.drawn), "topic": topic, "outputs": outs, "replay_op": "producer"}
             if kind == "rr":
@@ -745,6 +789,7 @@ def run(ck):
         draws = Draws(rnd)
         per_topic, seen = impl_client(hist, draws)
         ck.hist("client_histories")
+        ck.hist("client_sends_answered_NotLeader_or_UnknownTopic_then_retried", sum(1 for st in hist["steps"] if st[0] == "send" and len(st) > 3 and st[3]))
         ck.hist("client_metadata_responses_out_of_order", sum(1 for v in hist["topics"].values() if v != sorted(v)))
         rp = {"history": hist, "draws": list(draws.drawn), "replay_op": "client"}
         bad = monitor_client(hist, per_topic, seen)
@@ -871,7 +916,10 @@ def replay(rp):
         n_list = rp.get("n_list") or [1, 2, 3, 7, 12, 50]
         from afkak.partitioner import HashedPartitioner
         hp = HashedPartitioner("t", [0])
-        ids = [hp.partition(bytes(k), list(range(n))) for n in n_list]
+        try:
+            ids = [hp.partition(bytes(k), list(range(n))) for n in n_list]
+        except Exception as e:      # noqa: BLE001
+            ids = "partition() raised %s: %s" % (type(e).__name__, str(e)[:120])
         jids = [java_partition(k, n) for n in n_list]
         print("key", k, "pure_murmur2", a, "java", b, "partition ids", ids, "java ids", jids, "for n in", n_list)
         return 0 if a == b and ids == jids else 1
@@ -884,7 +932,7 @@ def replay(rp):
         if o[0] == 1 and o[1] not in rp["partitions"]:
             mon = "result outside the partition list"
         elif o[0] < 0:
-            mon = {-2: "non-deterministic", -3: "IndexError", -4: "caller's list modified"}.get(o[0], "error")
+            mon = {-2: "non-deterministic", -3: "IndexError", -4: "caller's list modified", -5: "partition() raised %s" % exc_name(o)}.get(o[0], "error")
         return verdict("hashed partition of %r (%s) over %r" % (rp["key"], form, rp["partitions"]), o, mo[0] if mo else None, mon)
     if op == "utf8":
         o = impl_utf8(rp["code_points"])
